@@ -4,6 +4,7 @@ package main
 // (iii) in-process frps with scripted sessions, (iv) byte transparency through real frpc peers.
 
 import (
+	"path/filepath"
 	"strings"
 	"sync"
 
@@ -31,11 +32,16 @@ func runVisitors(cfg *hx.RunCfg) error {
 			// non-trivial: at least one visitor request in the history
 			if strings.Contains(c, "VmNewConn") || strings.Contains(c, "NhVisitor") || strings.Contains(c, "SVisitorConn") ||
 				strings.Contains(c, "SNatHole") || strings.HasPrefix(c, "CE2E") || strings.HasPrefix(c, "CCfg") ||
-				strings.HasPrefix(c, "CXtcp") || strings.HasPrefix(c, "CFirst") {
+				strings.HasPrefix(c, "CXtcp") || strings.HasPrefix(c, "CFirst") || strings.HasPrefix(c, "CLong") {
 				nontrivial++
 			}
 		}
 	}
+	if cfg.Out != "" {
+		c08WorkDir = filepath.Dir(cfg.Out)
+	}
+	// (ix) runs for ten and a half seconds beside everything else
+	waitLong := startLongLived(dist, add)
 	nA := cfg.N * 45 / 100
 	nB := cfg.N * 40 / 100
 	for i := 0; i < nA; i++ {
@@ -70,6 +76,9 @@ func runVisitors(cfg *hx.RunCfg) error {
 	}
 	nSys := cfg.N - nA - nB
 	if err := systemCases(cfg, g, nSys, dist, add); err != nil {
+		return err
+	}
+	if err := waitLong(); err != nil {
 		return err
 	}
 	cf := &hx.CaseFile{Imports: caseImports, Typ: "case", Cases: cases, Tail: caseTail}
